@@ -14,6 +14,18 @@
 (* a RELATION: XSucc(K, st, op) is the SET of admissible successor states, so *)
 (* that a correct implementation may take any of them.                        *)
 (*                                                                            *)
+(* FAULTS.  st.fault is a switch of the environment (op "Fault"): while it is *)
+(* on, the user-supplied components fail -- trace / log ("comp"): every        *)
+(* processor's and exporter's Shutdown and ForceFlush return an error (after   *)
+(* having done their part); metric: "callback" (an observable callback returns *)
+(* an error in every collection), "producer" (an external Producer registered  *)
+(* on every reader fails), "exporter" (Export / ForceFlush / Shutdown of the    *)
+(* readers' exporters return errors).  The statement: whatever a component     *)
+(* answers, every processor / reader / exporter is still shut down exactly     *)
+(* once by a Shutdown with a live context, and later calls behave as after any *)
+(* Shutdown.  Silent: which error the provider returns ("" or "fault"), and    *)
+(* whether a flush / final collection that failed still exports (any subset).  *)
+(*                                                                            *)
 (* K maps a component id to its kind:                                         *)
 (*   processors (trace, log): "rec" (user processor), "simple", "batch"       *)
 (*       (stock processor around a recording exporter), "simplenil",          *)
@@ -26,6 +38,7 @@ Without(s, x) == SelectSeq(s, LAMBDA y : y # x)
 NoOut == [err |-> "", noop |-> FALSE, val |-> 0]
 HasExp(k) == k \in {"simple", "batch", "periodic"}
 ErrAlts(S, E) == {[s EXCEPT !.out.err = e] : s \in S, e \in E}
+FaultErr(st) == IF st.fault = "none" THEN {} ELSE {"fault"}
 
 (* ---------------------------------------------------------------- processors *)
 (* fields: sd (Shutdown calls seen by the processor), xsd (by its exporter),  *)
@@ -55,17 +68,20 @@ FlushOne(K, st, p) ==
     THEN [st EXCEPT !.exp[p] = @ \cup st.pend[p], !.pend[p] = {}] ELSE st
 RECURSIVE FlushAll(_, _, _)
 FlushAll(K, st, ps) == IF ps = <<>> THEN st ELSE FlushAll(K, FlushOne(K, st, Head(ps)), Tail(ps))
+(* a flush that met a failing component: any subset of the processors was flushed *)
+FlushAny(K, st, ps) == {FlushAll(K, st, SelectSeq(ps, LAMBDA p : p \in S)) : S \in SUBSET SeqToSet(ps)}
 
 (* ---------------------------------------------------------------- TracerProvider *)
 TPEmpty(P, init) ==
   [procs |-> init, ever |-> SeqToSet(init), down |-> FALSE,
    sd |-> [p \in P |-> 0], xsd |-> [p \in P |-> 0],
    beg |-> [p \in P |-> {}], del |-> [p \in P |-> {}], exp |-> [p \in P |-> {}], pend |-> [p \in P |-> {}],
-   n |-> 0, out |-> NoOut]
+   n |-> 0, fault |-> "none", out |-> NoOut]
 
 TPSucc(K, st, o) ==
   LET s0 == [st EXCEPT !.out = NoOut] IN
-  CASE o.op = "Register" ->
+  CASE o.op = "Fault" -> {[s0 EXCEPT !.fault = o.f]}
+    [] o.op = "Register" ->
          {IF st.down THEN s0 ELSE [s0 EXCEPT !.procs = Append(@, o.p), !.ever = @ \cup {o.p}]}
     [] o.op = "Unregister" ->
          IF o.p \notin SeqToSet(st.procs) THEN {s0}          \* not registered: changes nothing
@@ -75,11 +91,13 @@ TPSucc(K, st, o) ==
               IF st.down THEN {s0, done} ELSE {done}
     [] o.op = "Shutdown" ->
          LET full(flush) == [ShutAll(K, s0, st.procs, flush) EXCEPT !.procs = <<>>, !.down = TRUE] IN
-         IF o.ctx = "live" THEN {full(TRUE)}
-         ELSE ErrAlts({full(TRUE), full(FALSE), [s0 EXCEPT !.down = TRUE]}, {"", "ctx"})
+         IF o.ctx = "live" THEN ErrAlts({full(TRUE)}, {""} \cup (IF st.procs = <<>> THEN {} ELSE FaultErr(st)))
+         ELSE ErrAlts({full(TRUE), full(FALSE), [s0 EXCEPT !.down = TRUE]}, {"", "ctx"} \cup FaultErr(st))
     [] o.op = "ForceFlush" ->
-         IF o.ctx = "live" THEN {FlushAll(K, s0, st.procs)}
-         ELSE ErrAlts({s0, FlushAll(K, s0, st.procs)}, {"", "ctx"})
+         IF o.ctx = "live" /\ st.fault = "none" THEN {FlushAll(K, s0, st.procs)}
+         ELSE IF o.ctx = "live" THEN ErrAlts(FlushAny(K, s0, st.procs), {""} \cup (IF st.procs = <<>> THEN {} ELSE {"fault"}))
+         ELSE ErrAlts(IF st.fault = "none" THEN {s0, FlushAll(K, s0, st.procs)} ELSE FlushAny(K, s0, st.procs),
+                      {"", "ctx"} \cup FaultErr(st))
     [] o.op = "Tracer" -> {[s0 EXCEPT !.out.noop = st.down]}
     [] o.op = "StartEnd" ->
          \* via = "old": a tracer obtained before any Shutdown; "new": obtained now
@@ -97,18 +115,21 @@ TPOk(st) ==
 LPEmpty(P) ==
   [down |-> FALSE, sd |-> [p \in P |-> 0], xsd |-> [p \in P |-> 0],
    beg |-> [p \in P |-> {}], del |-> [p \in P |-> {}], exp |-> [p \in P |-> {}], pend |-> [p \in P |-> {}],
-   n |-> 0, out |-> NoOut]
+   n |-> 0, fault |-> "none", out |-> NoOut]
 
 LPSucc(K, Q, st, o) ==
   LET s0 == [st EXCEPT !.out = NoOut] IN
-  CASE o.op = "Shutdown" ->
-         LET full(flush) == [ShutAll(K, s0, Q, flush) EXCEPT !.down = TRUE] IN
-         IF o.ctx = "live" THEN {full(TRUE)}
-         ELSE ErrAlts({full(TRUE), full(FALSE), [s0 EXCEPT !.down = TRUE]}, {"", "ctx"})
+  CASE o.op = "Fault" -> {[s0 EXCEPT !.fault = o.f]}
+    [] o.op = "Shutdown" ->
+         LET full(flush) == [ShutAll(K, s0, Q, flush) EXCEPT !.down = TRUE]
+             first == \E i \in 1..Len(Q) : st.sd[Q[i]] = 0 IN     \* some processor is shut down by this call
+         IF o.ctx = "live" THEN ErrAlts({full(TRUE)}, {""} \cup (IF first THEN FaultErr(st) ELSE {}))
+         ELSE ErrAlts({full(TRUE), full(FALSE), [s0 EXCEPT !.down = TRUE]}, {"", "ctx"} \cup FaultErr(st))
     [] o.op = "ForceFlush" ->
          IF st.down THEN ErrAlts({s0}, IF o.ctx = "live" THEN {""} ELSE {"", "ctx"})
-         ELSE IF o.ctx = "live" THEN {FlushAll(K, s0, Q)}
-         ELSE ErrAlts({s0, FlushAll(K, s0, Q)}, {"", "ctx"})
+         ELSE IF o.ctx = "live" /\ st.fault = "none" THEN {FlushAll(K, s0, Q)}
+         ELSE IF o.ctx = "live" THEN ErrAlts(FlushAny(K, s0, Q), {"", "fault"})
+         ELSE ErrAlts(IF st.fault = "none" THEN {s0, FlushAll(K, s0, Q)} ELSE FlushAny(K, s0, Q), {"", "ctx"} \cup FaultErr(st))
     [] o.op = "Logger" -> {[s0 EXCEPT !.out.noop = st.down]}
     [] o.op = "Emit" ->
          \* after Shutdown: harmless no-op, nothing more is exported (deliveries to OnEmit after
@@ -124,7 +145,7 @@ LPOk(st) == \A p \in DOMAIN st.sd : st.sd[p] <= 1 /\ st.xsd[p] <= 1 /\ st.exp[p]
 (* exporter, last[r] = the sum in its latest export                            *)
 MPEmpty(R) ==
   [down |-> FALSE, sd |-> [r \in R |-> 0], xsd |-> [r \in R |-> 0],
-   nexp |-> [r \in R |-> 0], last |-> [r \in R |-> 0], total |-> 0, out |-> NoOut]
+   nexp |-> [r \in R |-> 0], last |-> [r \in R |-> 0], total |-> 0, fault |-> "none", out |-> NoOut]
 
 MExport(K, st, r) == IF K[r] = "periodic" /\ st.sd[r] = 0
                        THEN [st EXCEPT !.nexp[r] = @ + 1, !.last[r] = st.total] ELSE st
@@ -137,29 +158,46 @@ MShutOne(K, st, r, flush) ==
 RECURSIVE MShutAll(_, _, _, _)
 MShutAll(K, st, rs, flush) ==
   IF rs = <<>> THEN st ELSE MShutAll(K, MShutOne(K, st, Head(rs), flush), Tail(rs), flush)
+(* a collection that meets a fault: whether the reader still hands (partial) data to its exporter is not *)
+(* constrained -- any subset S of the readers exports; the shutting down itself is not negotiable        *)
+RECURSIVE MShutSome(_, _, _, _)
+MShutSome(K, st, rs, S) ==
+  IF rs = <<>> THEN st ELSE MShutSome(K, MShutOne(K, st, Head(rs), Head(rs) \in S), Tail(rs), S)
+MExportAny(K, st, rs) == {MExportAll(K, st, SelectSeq(rs, LAMBDA r : r \in S)) : S \in SUBSET SeqToSet(rs)}
 
 MPSucc(K, Q, st, o) ==
   LET s0 == [st EXCEPT !.out = NoOut] IN
-  CASE o.op = "Shutdown" ->
+  CASE o.op = "Fault" -> {[s0 EXCEPT !.fault = o.f]}
+    [] o.op = "Shutdown" ->
          LET full(flush) == [MShutAll(K, s0, Q, flush) EXCEPT !.down = TRUE]
+             some == {[MShutSome(K, s0, Q, S) EXCEPT !.down = TRUE] : S \in SUBSET SeqToSet(Q)}
              AllShut == \A i \in 1..Len(Q) : st.sd[Q[i]] = 1 IN
          IF st.down /\ AllShut
            \* repeated call: harmless no-op or the documented ErrReaderShutdown
            THEN ErrAlts({s0}, {"", "reader-shutdown"} \cup (IF o.ctx = "live" THEN {} ELSE {"ctx"}))
-         ELSE IF o.ctx = "live" THEN {full(TRUE)}
-         ELSE ErrAlts({full(TRUE), full(FALSE), [s0 EXCEPT !.down = TRUE]}, {"", "ctx"})
+         ELSE IF o.ctx = "live" /\ st.fault = "none" THEN {full(TRUE)}
+         \* a fault in the final collection / in the exporter: every reader and exporter is shut down all the same
+         ELSE IF o.ctx = "live" THEN ErrAlts(some, {"", "fault"})
+         ELSE ErrAlts({full(TRUE), full(FALSE), [s0 EXCEPT !.down = TRUE]} \cup (IF st.fault = "none" THEN {} ELSE some),
+                      {"", "ctx"} \cup FaultErr(st))
     [] o.op = "ForceFlush" ->
          IF st.down THEN ErrAlts({s0}, {"", "reader-shutdown"} \cup (IF o.ctx = "live" THEN {} ELSE {"ctx"}))
-         ELSE IF o.ctx = "live" THEN {MExportAll(K, s0, Q)}
-         ELSE ErrAlts({s0, MExportAll(K, s0, Q)}, {"", "ctx"})
+         ELSE IF o.ctx = "live" /\ st.fault = "none" THEN {MExportAll(K, s0, Q)}
+         ELSE IF o.ctx = "live" THEN ErrAlts(MExportAny(K, s0, Q), {"", "fault"})
+         ELSE ErrAlts(IF st.fault = "none" THEN {s0, MExportAll(K, s0, Q)} ELSE MExportAny(K, s0, Q), {"", "ctx"} \cup FaultErr(st))
     [] o.op = "Meter" -> {[s0 EXCEPT !.out.noop = st.down]}
     [] o.op = "Add" ->
          \* via "old": instrument created before Shutdown; "new": meter + instrument obtained now
          {IF st.down THEN s0 ELSE [s0 EXCEPT !.total = @ + 1]}
     [] o.op = "Collect" ->
-         IF st.sd[o.r] = 0 /\ ~st.down THEN {[s0 EXCEPT !.out.val = st.total]}
-         ELSE IF st.sd[o.r] = 0 THEN ErrAlts({s0, [s0 EXCEPT !.out.val = st.total]}, {"", "reader-shutdown"})
+         \* a failing callback / producer: Collect reports it; the data it returns next to the error is not constrained
+         IF st.sd[o.r] = 0 /\ ~st.down /\ st.fault \in {"callback", "producer"}
+           THEN {[s0 EXCEPT !.out.err = "fault", !.out.val = v] : v \in {0, st.total}}
+         ELSE IF st.sd[o.r] = 0 /\ ~st.down THEN {[s0 EXCEPT !.out.val = st.total]}
+         ELSE IF st.sd[o.r] = 0 THEN ErrAlts({s0, [s0 EXCEPT !.out.val = st.total]}, {"", "reader-shutdown"} \cup FaultErr(st))
          ELSE {[s0 EXCEPT !.out.err = "reader-shutdown"]}     \* documented: ErrReaderShutdown
 
 MPOk(st) == \A r \in DOMAIN st.sd : st.sd[r] <= 1 /\ st.xsd[r] <= 1
+(* whatever its components answer: a component that has been shut down has had its exporter shut down *)
+ExporterShutWith(K, st) == \A c \in DOMAIN st.sd : st.sd[c] = 1 => st.xsd[c] = (IF HasExp(K[c]) THEN 1 ELSE 0)
 =============================================================================
